@@ -294,6 +294,19 @@ def jit_vs_eager(cases):
 # stream 3: kernels through the engine
 # ------------------------------------------------------------------------------------------------
 KINDS = ["RW", "MH1", "MH0", "IWLS", "HMC", "NUTS"]
+DA_ATTRS = ["da_target_accept", "da_gamma", "da_kappa", "da_t0"]
+DA_CANDS = [[15 / 64, 51 / 64, 0.25, 0.5, 0.625, 0.75], [1 / 16, 1 / 32, 0.125, 0.25, 3 / 64],
+            [0.75, 0.5, 0.625, 0.875, 1.0], [10.0, 1.0, 3.0, 5.0, 20.0]]
+
+
+def with_reassignment(rnd, ksp, which):
+    """ksp['consts'] stay the values the kernel has when the engine is built; the constructor gets different
+    values for the attributes in [which], which are then reassigned"""
+    ctor = list(ksp["consts"])
+    for j in which:
+        ctor[j] = rnd.choice([v for v in DA_CANDS[j] if v != ksp["consts"][j]])
+    ksp["ctor_consts"], ksp["reassigned"] = ctor, list(which)
+    return ksp
 
 
 def make_kernel(kind, consts, s0, key):
@@ -370,10 +383,17 @@ def run_engine(spec):
     b.store_kernel_states = True
     b.set_model(gs.DictInterface(logp))
     for i, ksp in enumerate(kernels):
+        ctor = ksp.get("ctor_consts") or ksp["consts"]
         if ksp.get("table"):
-            b.add_kernel(make_scripted(ksp["kernel"], ksp["consts"], ksp["s0"], f"p{i}", ksp["table"]))
+            kern = make_scripted(ksp["kernel"], ctor, ksp["s0"], f"p{i}", ksp["table"])
         else:
-            b.add_kernel(make_kernel(ksp["kernel"], ksp["consts"], ksp["s0"], f"p{i}"))
+            kern = make_kernel(ksp["kernel"], ctor, ksp["s0"], f"p{i}")
+        # the dual-averaging attributes are reassigned on the constructed kernel, before the engine is built:
+        # adaptation has to follow the kernel's CURRENT da_target_accept / da_gamma / da_kappa / da_t0
+        for j in ksp.get("reassigned", []):
+            v = ksp["consts"][j]
+            setattr(kern, DA_ATTRS[j], int(v) if j == 3 and float(v).is_integer() else v)
+        b.add_kernel(kern)
     b.set_initial_values({f"p{i}": jnp.array([0.5, -0.25, 0.125 * i], dtype=jnp.float32) for i in range(len(kernels))})
     cfgs = [L["EpochConfig"](L["EpochType"](0), 1, 1, None)]
     cfgs += [L["EpochConfig"](L["EpochType"](int(t)), int(d), 1, None) for (t, d) in spec["sched"]]
@@ -399,6 +419,7 @@ def run_engine(spec):
             dtypes = sorted({str(f.dtype) for f in f4})
             case = {"kind": "engine", "spec": spec, "kidx": ki, "kernel": ksp["kernel"], "consts": ksp["consts"],
                     "s0": ksp["s0"], "sched": spec["sched"], "chain": ch, "states": states, "scripted": bool(ksp.get("table")),
+                    "ctor_consts": ksp.get("ctor_consts"), "reassigned": ksp.get("reassigned", []),
                     "accs": [fin(a) for a in acc[ch]], "errs": [int(e) for e in err[ch]], "dtypes": dtypes,
                     "imm": [[float(v) for v in imm[ch, i].ravel()] for i in range(T + 1)] if imm is not None else None}
             out.append(case)
@@ -574,17 +595,27 @@ def generate(ctx):
     specs = []
     # quick: the usual warm-up shape on 2 chains + the burn-in-in-between shape on 1 chain;
     # thorough: all four shapes (incl. "no adaptation at all"), default constants in one of them
-    plan = [(0, 2, False), (1, 1, True)] if quick else [(0, 3, False), (1, 3, True), (2, 3, False), (3, 2, False), (0, 2, True)]
-    for (shape, nch, defaults) in plan:
+    # reassign: None = the constructor values are the values used; "all" = all four dual-averaging attributes of every
+    # kernel are reassigned after construction (every constructor value differs from the current one); an int r =
+    # kernel number i has only attribute (i + r) % 4 reassigned
+    plan = [(0, 2, False, None), (1, 1, True, "all")] if quick else \
+        [(0, 3, False, None), (1, 3, True, "all"), (2, 3, False, 0), (3, 2, False, None), (0, 2, True, None), (2, 2, False, 2), (1, 2, False, "all")]
+    for (shape, nch, defaults, reassign) in plan:
         ks = []
-        for k in KINDS:
+        for i, k in enumerate(KINDS):
             default = (rw_default if k in ("RW", "MH1", "MH0") else hmc_default) if defaults else None
-            ks.append({"kernel": k, "consts": gen_consts(rnd, dyadic=True, default=default),
-                       "s0": rnd.choice([0.25, 0.5, 1.0, 0.125]) if k != "IWLS" else rnd.choice([0.25, 0.5, 1.0])})
+            ksp = {"kernel": k, "consts": gen_consts(rnd, dyadic=True, default=default),
+                   "s0": rnd.choice([0.25, 0.5, 1.0, 0.125]) if k != "IWLS" else rnd.choice([0.25, 0.5, 1.0])}
+            if reassign is not None:
+                with_reassignment(rnd, ksp, [0, 1, 2, 3] if reassign == "all" else [(i + reassign) % 4])
+            ks.append(ksp)
         specs.append({"kernels": ks, "sched": gen_sched(rnd, quick, shape), "nchains": nch, "seed": rnd.randrange(1, 10 ** 6)})
     specs.append(scripted_spec(rnd, quick, 0))
     if not quick:
-        specs.append(scripted_spec(rnd, quick, 1))
+        sp = scripted_spec(rnd, quick, 1)
+        for i, ksp in enumerate(sp["kernels"]):
+            with_reassignment(rnd, ksp, [1, 2, 3] if i % 2 else [i % 4])     # the target stays: the tables are made for it
+        specs.append(sp)
     for sp in specs:
         cases += run_engine(sp)
         common.log(f"[C11] engine with {len(sp['kernels'])} kernels, schedule {sp['sched']} done at {time.time() - t_0:.1f}s")
@@ -608,6 +639,10 @@ def generate(ctx):
             nontrivial.add(("s", tuple(c["consts"]), tuple(c["prev"]), c["a"], c["tie"]))
         else:
             ctx.hist(f"engine.kernel={c['kernel']}" + (".scripted_acceptance" if c.get("scripted") else ""))
+            for j in c.get("reassigned") or []:
+                ctx.hist(f"engine.{DA_ATTRS[j]}_reassigned_after_construction.{c['kernel']}")
+            if not c.get("reassigned"):
+                ctx.hist("engine.constructor_values_used")
             for (t, idxs) in epochs_of(c):
                 if t in (1, 2) and tunes(c) and len(idxs) >= 2 and c["states"][idxs[-1]][1] == 0.0:
                     ctx.hist("engine.adaptation_epochs_ending_with_error_sum_exactly_0")
@@ -743,18 +778,22 @@ def _oracle(c):
     else:
         r = oracle_engine(c)
         if r:
-            return r
+            return r + _context(c)
     # the same one-step comparisons the Coq lemmas make, in float64
     for (got, want, tol, _) in one_steps(c):
         r = cmp4(got, want, float(tol), "one update")
         if r:
-            return r
+            return r + _context(c)
     return None
 
 
 def _context(c):
     if c["kind"] == "engine":
-        return f" [{c['kernel']} chain {c['chain']}, constants {c['consts']}, schedule {c['sched']}]"
+        re_ = ""
+        if c.get("reassigned"):
+            re_ = (f"; constructed with {c['ctor_consts']}, then " + ", ".join(DA_ATTRS[j] for j in c["reassigned"])
+                   + " reassigned to the current values")
+        return f" [{c['kernel']} chain {c['chain']}, current (target, gamma, kappa, t0) = {c['consts']}{re_}, schedule {c['sched']}]"
     return f" [constants {c['consts']}]"
 
 
